@@ -318,4 +318,71 @@ func factsC11() {
 		}
 	}
 	emitList("headerSamplingConds", "pkg/block/indexheader/binary_reader.go init: the sampling tests", samp)
+	// index format v1: the branch of postingsOffset, statement by statement
+	var v1 []string
+	ast.Inspect(body(fn(f, "BinaryReader", "postingsOffset")), func(n ast.Node) bool {
+		if x, ok := n.(*ast.IfStmt); ok && v1 == nil && strings.Contains(text(x.Cond), "FormatV1") {
+			v1 = flatStmts(x.Body)
+			return false
+		}
+		return true
+	})
+	emitList("postingsOffsetV1Stmts", "pkg/block/indexheader/binary_reader.go postingsOffset: the FormatV1 branch, statement by statement", v1)
+	// … and the tests of init on the previous entry (the v1 table is read in the first branch)
+	var last []string
+	for _, c := range condSeq(body(fn(f, "BinaryReader", "init"))) {
+		if strings.Contains(c, "lastName") && !strings.Contains(c, "postingOffsetsInMemSampling") {
+			last = append(last, c)
+		}
+	}
+	emitList("headerInitLastNameConds", "pkg/block/indexheader/binary_reader.go init: the tests on the previous table entry", last)
+	emitList("lookupSymbolStmts", "pkg/block/indexheader/binary_reader.go LookupSymbol, statement by statement", flatStmts(body(fn(f, "BinaryReader", "LookupSymbol"))))
+	emitList("labelNamesStmts", "pkg/block/indexheader/binary_reader.go LabelNames, statement by statement", flatStmts(body(fn(f, "BinaryReader", "LabelNames"))))
+}
+
+// flatStmts lists the statements of a block in source order; compound statements are opened
+// ("if:<cond> {", "for:<header> {", "}").
+func flatStmts(n ast.Node) []string {
+	var out []string
+	var walk func(st ast.Stmt)
+	block := func(b *ast.BlockStmt) {
+		if b == nil {
+			return
+		}
+		for _, st := range b.List {
+			walk(st)
+		}
+	}
+	walk = func(st ast.Stmt) {
+		switch x := st.(type) {
+		case *ast.BlockStmt:
+			block(x)
+		case *ast.IfStmt:
+			h := "if:"
+			if x.Init != nil {
+				h += text(x.Init) + "; "
+			}
+			out = append(out, h+text(x.Cond)+" {")
+			block(x.Body)
+			if x.Else != nil {
+				out = append(out, "} else {")
+				walk(x.Else)
+			}
+			out = append(out, "}")
+		case *ast.ForStmt:
+			out = append(out, "for:"+text(x.Cond)+" {")
+			block(x.Body)
+			out = append(out, "}")
+		case *ast.RangeStmt:
+			out = append(out, "range:"+text(x.Key)+","+text(x.Value)+" in "+text(x.X)+" {")
+			block(x.Body)
+			out = append(out, "}")
+		default:
+			out = append(out, text(st))
+		}
+	}
+	if b, ok := n.(*ast.BlockStmt); ok {
+		block(b)
+	}
+	return out
 }
